@@ -3,6 +3,8 @@ import argparse
 import importlib
 import json
 import multiprocessing as mp
+import concurrent.futures as cf
+import concurrent.futures.process
 import os
 import random
 import shutil
@@ -136,7 +138,9 @@ def main():
             replay_case = json.load(open(a.replay))
         if model_ok:
             import ciscoconfparse2  # noqa: F401  (imported before forking the workers)
-            pool = mp.Pool(common.JOBS, initializer=common.pool_init)
+            # a ProcessPoolExecutor, not mp.Pool: when a worker process dies (killed, out of memory) the map raises
+            # BrokenProcessPool instead of waiting for ever
+            pool = cf.ProcessPoolExecutor(common.JOBS, mp_context=mp.get_context("fork"), initializer=common.pool_init)
             try:
                 for st in mod.STREAMS:
                     if replay_case is not None:
@@ -155,7 +159,12 @@ def main():
                                 corpus.append(k["case"])
                         cases = corpus + st.gen(random.Random(rng.random()), a.tier, escalate)
                     ts = time.time()
-                    obs = pool.map(_run_one, [(modname, st.name, c) for c in cases], chunksize=max(1, len(cases) // (common.JOBS * 8)))
+                    try:
+                        obs = list(pool.map(_run_one, [(modname, st.name, c) for c in cases], chunksize=max(1, len(cases) // (common.JOBS * 8))))
+                    except cf.process.BrokenProcessPool:
+                        problems.append({"kind": "driver", "what": "a worker process running the implementation on stream %s died (killed / out of memory); the stream was not evaluated" % st.name})
+                        pool = cf.ProcessPoolExecutor(common.JOBS, mp_context=mp.get_context("fork"), initializer=common.pool_init)
+                        continue
                     t_impl = time.time() - ts
                     derr = [o for o in obs if isinstance(o, dict) and "__driver_error__" in o]
                     if derr:
@@ -193,8 +202,7 @@ def main():
                         violations.append({"stream": st.name, "case": cases[i], "observed": obs[i],
                                            "model": shown.get(i), "detail": st.describe(cases[i], obs[i])})
             finally:
-                pool.close()
-                pool.join()
+                pool.shutdown(wait=True, cancel_futures=True)
 
         # ---- 5b. auxiliary differential checks (clauses decided by test only; see level_note)
         aux_info = None
